@@ -121,6 +121,17 @@ def check_case(case):
         if not oce.ok or oce.value.serialized_bytes != case.bytes:
             return out.fail('encoded bytes are not the concatenation of the single-subset data sections (template compilation)',
                             error=None if oce.ok else oce.msg)
+    # with debug logging switched on (the documented --debug option) the decoder keeps its values in audited lists:
+    # what is obtained for each subset must be the same
+    if int(case.key()[4:6], 16) % 3 == 0:
+        out.classes.append('also_with_debug_logging')
+        with sut.debug_logging():
+            og, obsg, nestg = observe_full(case.bytes)
+        if not og.ok:
+            return out.fail('decode of all subsets together raised %s@%s (debug logging on)' % (og.exc_type, og.frame), error=og.msg)
+        for i in range(n):
+            if compare_subset(out, 'debug logging on vs off', obsg, nestg, i, obs, nest, i):
+                return out
     # each subset alone
     for i in range(n):
         single = sub_message(case, [i])
